@@ -87,7 +87,7 @@ def gen_docs(tier, seed, tmpl):
               b"{\"a\":123456789012345678901234567890}", b"{\"kty\":\"oct\",\"k\":\"AA\\u0000AA\"}", b"{\"kty\":\"o\\u0000ct\"}", b"{\"kty\":\"\\ud800\"}",
               b"{\"kty\":\"oct\",\"k\":\"AAAA\",\"kty\":\"RSA\"}", b"{\"kty\":\"oct\"\x00,\"k\":\"AAAA\"}", b"{\"kty\":\"oct\",\"k\":\"AAAA\"}\x00garbage",
               b"{\"kty\":\"\xff\"}", b"\x00", b"[" * 3000 + b"]" * 3000, b"{\"keys\":" + b"[" * 100 + b"]" * 100 + b"}"]:
-        for e in range(9):
+        for e in range(11):
             docs.append((e, t))
     nrand = 20000 if tier == "thorough" else 1500
     good = [json.dumps(t).encode() for t in tmpl]
@@ -310,6 +310,6 @@ def run(tier, seed, replay):
     vf.need(rep, c.get("items_good", 0) > 200, "too few usable keys imported (positive control)")
     vf.need(rep, c.get("items_error", 0) > 200, "too few bad items observed")
     vf.need(rep, c.get("notjson", 0) > 100, "too few non-JSON documents")
-    for e in range(9):
+    for e in range(11):
         vf.need(rep, c.get("entry.%d" % e, 0) > 20, "entry point %d hardly exercised" % e)
     return rep
